@@ -132,6 +132,8 @@ class Check:
         self.distinct = set()
         self.exhaustive = False
         self.known = json.load(open(KNOWN)) if os.path.exists(KNOWN) else []
+        if not os.environ.get("VERIF_NO_EVIDENCE"):
+            shutil.rmtree(os.path.join(ROOT, "replays", pid), ignore_errors=True)
 
     # -- TLC accounting
     def account(self, name, run, expect_violation=False):
